@@ -5,8 +5,9 @@
    given as a list of rows of Z (own minimal matrix; model/Matrix.v belongs to another property).
    The viewport bounds (graph_view.get_bounds()) are a separate record; the bitmap may be larger than the
    viewport (the theorems then also say that nothing outside the viewport changes).
-   Only the case the theorems cover is modelled: is_solid (pattern is None), so tile = fill attribute and
-   there is no background pattern.  Tiled/background-pattern PAINT is not modelled.  No proofs here. *)
+   The fill is described by a `pat`: solid (pattern is None: tile = 1x8 matrix of the fill attribute) or a
+   tile (the unpacked matrix returned by the mode's build_tile, taken as given - the bit packing is not part
+   of this model) with an optional background row (first row of build_tile(bg_pattern)).  No proofs here. *)
 From Coq Require Import ZArith List Bool.
 From PCB Require Import lib.Result lib.PyInt.
 Import ListNotations.
@@ -27,19 +28,20 @@ Definition pix (m : bitmap) (x y : Z) : Z :=
   then nth (Z.to_nat (x - org_x m)) (nth (Z.to_nat (y - org_y m)) (rows m) []) (-1)
   else -1.
 
-(* graph_view[y, xl:xr+1] = a *)
-Fixpoint set_row (r : list Z) (i xl xr a : Z) : list Z :=
+(* graph_view[y, xl:xr+1] = interval, the value written at column x being f x *)
+Fixpoint set_row (r : list Z) (i xl xr : Z) (f : Z -> Z) : list Z :=
   match r with
   | [] => []
-  | c :: t => (if (xl <=? i) && (i <=? xr) then a else c) :: set_row t (i + 1) xl xr a
+  | c :: t => (if (xl <=? i) && (i <=? xr) then f i else c) :: set_row t (i + 1) xl xr f
   end.
-Fixpoint set_rows (rs : list (list Z)) (j ox y xl xr a : Z) : list (list Z) :=
+Fixpoint set_rows (rs : list (list Z)) (j ox y xl xr : Z) (f : Z -> Z) : list (list Z) :=
   match rs with
   | [] => []
-  | r :: t => (if j =? y then set_row r ox xl xr a else r) :: set_rows t (j + 1) ox y xl xr a
+  | r :: t => (if j =? y then set_row r ox xl xr f else r) :: set_rows t (j + 1) ox y xl xr f
   end.
-Definition fill_range (m : bitmap) (y xl xr a : Z) : bitmap :=
-  mkBitmap (org_x m) (org_y m) (set_rows (rows m) (org_y m) (org_x m) y xl xr a).
+Definition tile_range (m : bitmap) (y xl xr : Z) (f : Z -> Z) : bitmap :=
+  mkBitmap (org_x m) (org_y m) (set_rows (rows m) (org_y m) (org_x m) y xl xr f).
+Definition fill_range (m : bitmap) (y xl xr a : Z) : bitmap := tile_range m y xl xr (fun _ => a).
 
 (* ---- _scanline_until(element, y, x0, x1).width
    x1 > x0: number of cells x0, x0+1, .. before the first `element` (at most x1-x0);
@@ -59,33 +61,67 @@ Definition scanline_until (m : bitmap) (elt y x0 x1 : Z) : Z :=
   else if x0 <? x1 then scan_r m elt y x0 (Z.to_nat (x1 - x0))
   else scan_l m elt y x0 (Z.to_nat (x0 - x1)).
 
-(* pattern == repeated_tile[0, tile_x : tile_x+pattern.width] for the solid tile: all n cells from x equal a *)
-Fixpoint all_eq (m : bitmap) (a y x : Z) (n : nat) : bool :=
+(* ---- the fill pattern *)
+Record pat := mkPat {
+  p_solid : bool;                 (* is_solid *)
+  p_tile : list (list Z);         (* tile: rows of attributes *)
+  p_bg : option (list Z)          (* bg_tile (one row) when a non-empty background pattern is given to a tile *)
+}.
+Definition solid_pat (fill : Z) : pat := mkPat true [repeat fill 8] None.
+
+Definition tile_h (p : pat) : Z := zlen (p_tile p).
+Definition tile_row (p : pat) (y : Z) : list Z := nth (Z.to_nat (y mod tile_h p)) (p_tile p) [].
+Definition tile_w (p : pat) : Z := zlen (nth 0 (p_tile p) []).
+(* attribute the tiled fill writes at (x, y): tile[y % height, x % width] *)
+Definition tile_at (p : pat) (x y : Z) : Z := nth (Z.to_nat (x mod tile_w p)) (tile_row p y) 0.
+
+(* rtile != ZERO_TILE[0, :rtile.width]  (ZERO_TILE is 1x8) *)
+Definition row_nonzero (r : list Z) : bool := (8 <? zlen r) || existsb (fun a => negb (a =? 0)) r.
+
+(* pattern == repeated_tile[0, tile_x : tile_x+pattern.width]: the n cells from x show the tile *)
+Fixpoint same_tile (m : bitmap) (p : pat) (y x : Z) (n : nat) : bool :=
   match n with
   | O => true
-  | S k => (pix m x y =? a) && all_eq m a y (x + 1) k
+  | S k => (pix m x y =? tile_at p x y) && same_tile m p y (x + 1) k
   end.
+(* pattern == repeated_back[0, tile_x : tile_x+pattern.width]; k = index into the repeated background row *)
+Fixpoint same_bg (m : bitmap) (bg : list Z) (y x k : Z) (n : nat) : bool :=
+  match n with
+  | O => true
+  | S j => (pix m x y =? nth (Z.to_nat (k mod zlen bg)) bg 0) && same_bg m bg y (x + 1) (k + 1) j
+  end.
+
+(* has_same_pattern of _check_scanline for the non-border run of width w starting at x on row y:
+   the run already shows the fill pattern (never for an all-zero row of a tile), unless - with a background
+   row - it is at least one tile wide and shows the background as well *)
+Definition has_same (m : bitmap) (p : pat) (y x w : Z) : bool :=
+  (p_solid p || row_nonzero (tile_row p y))
+  && same_tile m p y x (Z.to_nat w)
+  && match p_bg p with
+     | None => true
+     | Some bg => (w <? zlen bg) || negb (same_bg m bg y x (x mod tile_w p) (Z.to_nat w))
+     end.
 
 (* work-list entry [x_start, x_stop, y, ydir]; the Python list is used as a stack, head = top here *)
 Definition seedt := (Z * Z * Z * Z)%type.
 
 (* ---- _check_scanline: the `while x <= x_stop` loop; None = fuel exhausted *)
-Fixpoint check_loop (fuel : nat) (m : bitmap) (fill border y d x xstop : Z) (wl : list seedt)
+Fixpoint check_loop (fuel : nat) (m : bitmap) (p : pat) (border y d x xstop : Z) (wl : list seedt)
   : option (list seedt) :=
   match fuel with
   | O => None
   | S f =>
       if x <=? xstop then
         let w := scanline_until m border y x (xstop + 1) in
-        let wl' := if (0 <? w) && negb (all_eq m fill y x (Z.to_nat w))
+        let wl' := if (0 <? w) && negb (has_same m p y x w)
                    then (x, x + w - 1, y, d) :: wl else wl in
-        check_loop f m fill border y d (x + w + 1) xstop wl'
+        check_loop f m p border y d (x + w + 1) xstop wl'
       else Some wl
   end.
-Definition check_scanline (wl : list seedt) (m : bitmap) (fill border xstart xstop y d : Z)
+Definition check_scanline (wl : list seedt) (m : bitmap) (p : pat) (border xstart xstop y d : Z)
   : option (list seedt) :=
   if xstop <? xstart then Some wl
-  else check_loop (Z.to_nat (xstop - xstart + 2)) m fill border y d xstart xstop wl.
+  else check_loop (Z.to_nat (xstop - xstart + 2)) m p border y d xstart xstop wl.
 
 Definition obind {A B} (o : option A) (f : A -> option B) : option B :=
   match o with Some a => f a | None => None end.
@@ -96,30 +132,30 @@ Definition extend_left (v : bounds) (m : bitmap) (border xs y : Z) : Z :=
 Definition extend_right (v : bounds) (m : bitmap) (border xe y : Z) : Z :=
   xe + scanline_until m border y (xe + 1) (bx1 v + 1).
 
-Definition push_adjacent (v : bounds) (m : bitmap) (fill border xs xe y d xl xr : Z) (rest : list seedt)
+Definition push_adjacent (v : bounds) (m : bitmap) (p : pat) (border xs xe y d xl xr : Z) (rest : list seedt)
   : option (list seedt) :=
   if d =? 0 then
-    obind (if y + 1 <=? by1 v then check_scanline rest m fill border xl xr (y + 1) 1 else Some rest)
-      (fun w1 => if by0 v <=? y - 1 then check_scanline w1 m fill border xl xr (y - 1) (-1) else Some w1)
+    obind (if y + 1 <=? by1 v then check_scanline rest m p border xl xr (y + 1) 1 else Some rest)
+      (fun w1 => if by0 v <=? y - 1 then check_scanline w1 m p border xl xr (y - 1) (-1) else Some w1)
   else
     obind (if (y + d <=? by1 v) && (by0 v <=? y + d)
-           then check_scanline rest m fill border xl xr (y + d) d else Some rest)
+           then check_scanline rest m p border xl xr (y + d) d else Some rest)
       (fun w1 => if (y - d <=? by1 v) && (by0 v <=? y - d)
-                 then obind (check_scanline w1 m fill border xl (xs - 1) (y - d) (- d))
-                        (fun w2 => check_scanline w2 m fill border (xe + 1) xr (y - d) (- d))
+                 then obind (check_scanline w1 m p border xl (xs - 1) (y - d) (- d))
+                        (fun w2 => check_scanline w2 m p border (xe + 1) xr (y - d) (- d))
                  else Some w1).
 
-Definition step (v : bounds) (fill border : Z) (m : bitmap) (e : seedt) (rest : list seedt)
+Definition step (v : bounds) (p : pat) (border : Z) (m : bitmap) (e : seedt) (rest : list seedt)
   : option (bitmap * list seedt) :=
   let '(xs, xe, y, d) := e in
   let xl := extend_left v m border xs y in
   let xr := extend_right v m border xe y in
-  match push_adjacent v m fill border xs xe y d xl xr rest with
+  match push_adjacent v m p border xs xe y d xl xr rest with
   | None => None
-  | Some wl' => Some (fill_range m y xl xr fill, wl')
+  | Some wl' => Some (tile_range m y xl xr (fun x => tile_at p x y), wl')
   end.
 
-Fixpoint flood_loop (fuel : nat) (v : bounds) (fill border : Z) (m : bitmap) (wl : list seedt)
+Fixpoint flood_loop (fuel : nat) (v : bounds) (p : pat) (border : Z) (m : bitmap) (wl : list seedt)
   : res bitmap :=
   match wl with
   | [] => Ok m
@@ -127,9 +163,9 @@ Fixpoint flood_loop (fuel : nat) (v : bounds) (fill border : Z) (m : bitmap) (wl
       match fuel with
       | O => OutOfFuel
       | S f =>
-          match step v fill border m e rest with
+          match step v p border m e rest with
           | None => OutOfFuel
-          | Some (m', wl') => flood_loop f v fill border m' wl'
+          | Some (m', wl') => flood_loop f v p border m' wl'
           end
       end
   end.
@@ -137,11 +173,11 @@ Fixpoint flood_loop (fuel : nat) (v : bounds) (fill border : Z) (m : bitmap) (wl
 Definition in_view (v : bounds) (x y : Z) : bool :=
   (bx0 v <=? x) && (x <=? bx1 v) && (by0 v <=? y) && (y <=? by1 v).
 
-(* ---- _flood_fill for is_solid, physical seed (x, y) *)
-Definition flood_fill (fuel : nat) (v : bounds) (m : bitmap) (x y fill border : Z) : res bitmap :=
+(* ---- _flood_fill, physical seed (x, y) *)
+Definition flood_fill (fuel : nat) (v : bounds) (m : bitmap) (x y : Z) (p : pat) (border : Z) : res bitmap :=
   if negb (in_view v x y) then Ok m
   else if pix m x y =? border then Ok m
-  else flood_loop fuel v fill border m [(x, x, y, 0)].
+  else flood_loop fuel v p border m [(x, x, y, 0)].
 
 (* fuel shown sufficient in proofs/Flood_proofs.v: (width+2)*(height+2)*2 iterations *)
 Definition paint_fuel (v : bounds) : nat :=
@@ -177,7 +213,35 @@ Definition paint (text_mode : bool) (num_attr fg : Z) (v : bounds) (m : bitmap)
                                 else if (0 <=? bv) && (bv <=? 255) then Ok bv else Err 5
                    end;
   if negb (int16_ok x && int16_ok y) then Err 6 else
-  flood_fill (paint_fuel v) v m x y (attr_index num_attr fg fill_idx) (attr_index num_attr fg border_idx).
+  flood_fill (paint_fuel v) v m x y (solid_pat (attr_index num_attr fg fill_idx)) (attr_index num_attr fg border_idx).
+
+(* fuel used for tiled fills (no bound is proved for tiles with all-zero rows; see proofs) *)
+Definition tile_fuel (v : bounds) : nat := (paint_fuel v * 4)%nat.
+
+(* ---- PAINT (x,y), tile$ [,border] [,background$]: tile = build_tile(tile$) (non-empty string), bg = first
+   row of build_tile(background$) when that string is given and non-empty.  Border default: foreground.
+   Illegal combination: all rows, or three consecutive rows, of the tile equal the background row. *)
+Fixpoint rows_eqb (a b : list Z) : bool :=
+  match a, b with
+  | [], [] => true
+  | x :: a', y :: b' => (x =? y) && rows_eqb a' b'
+  | _, _ => false
+  end.
+Definition bg_illegal (tile : list (list Z)) (bg : list Z) : bool :=
+  existsb (fun row => forallb (fun r => rows_eqb r bg) (firstn 3 (skipn row tile)))
+          (seq 0 (Nat.max 1 (length tile - 2))).
+
+Definition paint_tile (text_mode : bool) (num_attr fg : Z) (v : bounds) (m : bitmap)
+           (x y : Z) (tile : list (list Z)) (b : option Z) (bg : option (list Z)) : res bitmap :=
+  if text_mode then Err 5 else
+  do border_idx <- match b with
+                   | None => Ok (-1)
+                   | Some bv => if negb (int16_ok bv) then Err 6
+                                else if (0 <=? bv) && (bv <=? 255) then Ok bv else Err 5
+                   end;
+  if match bg with Some r => bg_illegal tile r | None => false end then Err 5 else
+  if negb (int16_ok x && int16_ok y) then Err 6 else
+  flood_fill (tile_fuel v) v m x y (mkPat false tile bg) (attr_index num_attr fg border_idx).
 
 (* canonical output for the correspondence harness: 0 :: all pixels of the bitmap, row by row *)
 Definition enc_paint (r : res bitmap) : list Z := enc_res (rmap (fun m => concat (rows m)) r).
